@@ -81,6 +81,12 @@ func aggPrototype(kind string, t octosql.Type) func() nodes.Aggregate {
 // buildNode constructs the real execution node described by cfg on top of src.
 func buildNode(cfg map[string]interface{}, src execution.Node) execution.Node {
 	switch cfg["op"] {
+	case "pipe":
+		node := src
+		for _, st := range cfg["stages"].([]interface{}) {
+			node = buildNode(st.(map[string]interface{}), node)
+		}
+		return node
 	case "filter":
 		return nodes.NewFilter(src, &colEq{col: vals.Int(cfg["col"]) - 1, val: vals.ToValue(cfg["eq"])})
 	case "map":
